@@ -93,6 +93,17 @@ def run(ctx):
                           'a check of a ChainMap inserted a key into its defaultdict child') == 'violation':
                 failures += 1
             break
+    # iterators that are also collections (they report a length and support `in`): under Iterator / Generator-family
+    # hints, at any position, no check may advance them, accepting or rejecting
+    citer = collection_iterator_probe()
+    ctx.extra['collection_iterator_probe'] = {'cases': len(citer), 'not_intact': sorted(k for k, v in citer.items() if v != 'intact')[:5]}
+    ctx.evaluations += len(citer)
+    for name, obs in sorted(citer.items()):
+        if name == 'probe_failed' or obs != 'intact':
+            if ctx.report({'clause': 'iterator_advanced', 'via': 'collection_iterator_probe'}, {'case': name, 'observed': obs},
+                          'a check against an Iterator hint advanced an iterator that is also a collection') == 'violation':
+                failures += 1
+            break
     # checks the import hook adds after annotated assignments: the module must see its iterators, queues and default
     # dictionaries exactly as the same module imported without the hook sees them
     hook = hooked_assignment_probe(ctx)
@@ -186,6 +197,67 @@ def hooked_assignment_probe(ctx):
         return json.loads(p.stdout.strip().splitlines()[-1])
     except Exception:  # noqa
         return {'probe_failed': ((p.stderr or '') + ' | ' + (p.stdout or 'no output'))[-900:]}
+
+
+def collection_iterator_probe():
+    import subprocess
+    from harness.common import PY, impl_env
+    code = r"""
+import json, typing, collections.abc as abc
+from beartype import beartype, BeartypeConf
+from beartype.door import is_bearable, die_if_unbearable, TypeHint
+class CollIter:
+    'one-shot iterator that is also a Collection: __len__, __contains__, __iter__ returning itself, __next__'
+    def __init__(self, items): self.items = list(items); self.log = []
+    def __len__(self): return len(self.items)
+    def __contains__(self, x): return x in self.items
+    def __iter__(self): self.log.append('iter'); return self
+    def __next__(self):
+        self.log.append('next')
+        if not self.items: raise StopIteration
+        return self.items.pop(0)
+assert isinstance(CollIter([]), abc.Collection) and isinstance(CollIter([]), abc.Iterator)
+HINTS = {'Iterator[int]': abc.Iterator[int], 'typing.Iterator[str]': typing.Iterator[str],
+         'Optional[Iterator[int]]': typing.Optional[abc.Iterator[int]], 'Iterator[int] | str': typing.Union[abc.Iterator[int], str],
+         'Iterator[list[int]]': abc.Iterator[typing.List[int]]}
+WRAP = {'bare': lambda h, o: (h, o), 'list item': lambda h, o: (typing.List[h], [o]),
+        'tuple position': lambda h, o: (typing.Tuple[h, int], (o, 1)), 'dict value': lambda h, o: (typing.Dict[str, h], {'k': o})}
+out = {}
+for hn, h0 in HINTS.items():
+    for wn, wrap in WRAP.items():
+        for items in ([1, 2, 3], ['a', 'b'], [[1], [2]]):
+            for en in ('is_bearable', 'die_if_unbearable', 'TypeHint', 'param', 'return', 'param_On'):
+                it = CollIter(items); h, o = wrap(h0, it)
+                try:
+                    if en == 'is_bearable': is_bearable(o, h)
+                    elif en == 'die_if_unbearable': die_if_unbearable(o, h)
+                    elif en == 'TypeHint': TypeHint(h).is_bearable(o)
+                    elif en == 'param':
+                        @beartype
+                        def f(x: h): return None
+                        f(o)
+                    elif en == 'param_On':
+                        from beartype import BeartypeStrategy
+                        @beartype(conf=BeartypeConf(strategy=BeartypeStrategy.On))
+                        def f(x: h): return None
+                        f(o)
+                    else:
+                        @beartype
+                        def g(x) -> h: return x
+                        g(o)
+                except Exception as e:
+                    if 'Violation' not in type(e).__name__:
+                        out['%s / %s / %r / %s' % (hn, wn, items, en)] = 'raised ' + type(e).__name__ + ': ' + str(e)[:120]
+                        continue
+                out['%s / %s / %r / %s' % (hn, wn, items, en)] = (
+                    'intact' if it.items == items and 'next' not in it.log else 'advanced: log=%s left=%r' % (it.log[:6], it.items))
+print(json.dumps(out))
+"""
+    p = subprocess.run([PY, '-c', code], capture_output=True, text=True, env=impl_env(), timeout=300)
+    try:
+        return json.loads(p.stdout.strip().splitlines()[-1])
+    except Exception:  # noqa
+        return {'probe_failed': (p.stderr or 'no output')[-600:]}
 
 
 def chainmap_probe():
